@@ -267,9 +267,11 @@ func (d *badgerNodeDB) cleanMultipartLocked(removeNodes bool) error {
 
 	// Flush batch first. If anything fails, having corrupt
 	// multipart info in d.meta shouldn't hurt us next run.
+	api.VerifCrashPoint("badger.cleanmp.pre-flush")
 	if err := batch.Flush(); err != nil {
 		return err
 	}
+	api.VerifCrashPoint("badger.cleanmp.post-flush")
 
 	metaTx := d.db.NewTransactionAt(tsMetadata, true)
 	defer metaTx.Discard()
@@ -279,6 +281,7 @@ func (d *badgerNodeDB) cleanMultipartLocked(removeNodes bool) error {
 	if err := metaTx.CommitAt(tsMetadata, nil); err != nil {
 		return err
 	}
+	api.VerifCrashPoint("badger.cleanmp.post-meta")
 
 	d.multipartVersion = multipartVersionNone
 	return nil
@@ -703,9 +706,11 @@ func (d *badgerNodeDB) Finalize(roots []node.Root) error { // nolint: gocyclo
 	}
 
 	// Commit batch.
+	api.VerifCrashPoint("badger.finalize.pre-flush")
 	if err := versionBatch.Flush(); err != nil {
 		return err
 	}
+	api.VerifCrashPoint("badger.finalize.post-flush")
 
 	// Save roots metadata if changed.
 	if rootsChanged {
@@ -722,6 +727,7 @@ func (d *badgerNodeDB) Finalize(roots []node.Root) error { // nolint: gocyclo
 	if err := tx.CommitAt(tsMetadata, nil); err != nil {
 		return fmt.Errorf("mkvs/badger: failed to commit metadata: %w", err)
 	}
+	api.VerifCrashPoint("badger.finalize.post-meta")
 
 	// Clean multipart metadata if there is any.
 	if d.multipartVersion != multipartVersionNone {
@@ -831,9 +837,11 @@ func (d *badgerNodeDB) Prune(version uint64) error {
 	}
 
 	// Commit batch.
+	api.VerifCrashPoint("badger.prune.pre-flush")
 	if err := batch.Flush(); err != nil {
 		return fmt.Errorf("mkvs/badger: failed to flush batch: %w", err)
 	}
+	api.VerifCrashPoint("badger.prune.post-flush")
 
 	// Update metadata.
 	if err := d.meta.setEarliestVersion(tx, version+1); err != nil {
@@ -842,6 +850,7 @@ func (d *badgerNodeDB) Prune(version uint64) error {
 	if err := tx.CommitAt(tsMetadata, nil); err != nil {
 		return fmt.Errorf("mkvs/badger: failed to commit: %w", err)
 	}
+	api.VerifCrashPoint("badger.prune.post-meta")
 
 	// Discard everything invalidated at or below given version.
 	d.db.SetDiscardTs(versionToTs(version + 1))
@@ -874,6 +883,7 @@ func (d *badgerNodeDB) StartMultipartInsert(version uint64) error {
 	if err := tx.CommitAt(tsMetadata, nil); err != nil {
 		return err
 	}
+	api.VerifCrashPoint("badger.startmp.post-meta")
 
 	d.multipartVersion = version
 
@@ -1118,19 +1128,23 @@ func (ba *badgerBatch) Commit(root node.Root) error {
 	}
 
 	// Flush node updates.
+	api.VerifCrashPoint("badger.commit.pre-flush")
 	if ba.multipartNodes != nil {
 		if err = ba.multipartNodes.Flush(); err != nil {
 			return fmt.Errorf("mkvs/badger: failed to flush node log batch: %w", err)
 		}
+		api.VerifCrashPoint("badger.commit.post-mplog")
 	}
 	if err = ba.bat.Flush(); err != nil {
 		return fmt.Errorf("mkvs/badger: failed to flush batch: %w", err)
 	}
+	api.VerifCrashPoint("badger.commit.post-flush")
 
 	// Commit root metadata updates. This is done last, so in case we fail, we can still retry.
 	if err = tx.CommitAt(tsMetadata, nil); err != nil {
 		return err
 	}
+	api.VerifCrashPoint("badger.commit.post-meta")
 
 	ba.writeLog = nil
 	ba.annotations = nil
